@@ -179,7 +179,7 @@ func init() {
 			{ID: "C06.R2", Floor: 2, Doc: "every send on callReq.resp is a select case with a sibling receive on the same call's timeout; no c.mu held", Run: c06r2},
 			{ID: "C06.R3", Floor: 4, Doc: "exec: the select receiving call.resp has sibling cases on the timer, the caller's ctx and c.ctx", Run: c06r3},
 			{ID: "C06.R4", Floor: 7, Doc: "close protocol in closeWithError/serve/exec", Run: c06r4},
-			{ID: "C06.R5", Floor: 4, Doc: "exec: response path releases the stream on every exit unless the connection is closed; build/not-started-write error paths delete the call under c.mu before releasing", Run: c06r5},
+			{ID: "C06.R5", Floor: 2, Doc: "exec: response path releases the stream on every exit unless the connection is closed; build/not-started-write error paths delete the call under c.mu before releasing", Run: c06r5},
 			{ID: "C06.R6", Floor: 2, Doc: "StreamFinished/StreamAbandoned only inside streamObserverEndOnce.Do", Run: c06r6},
 			{ID: "C06.R7", Floor: 1, Doc: "recv: the no-handler path discards the frame body before returning", Run: c06r7},
 			{ID: "C06.R8", Floor: 3, Doc: "goroutine stopped by a bare blocking send on a quit channel: every return inside its loop is preceded by a receive from that channel", Run: c06r8},
@@ -502,37 +502,49 @@ func c06r5(p *Program, r *Report) {
 	if nresp == 0 {
 		r.Unresolved("no exit of exec after receiving call.resp")
 	}
-	// every releaseStream in exec that is not on the response path: delete under lock precedes it
-	ast.Inspect(fi.Decl.Body, func(n ast.Node) bool {
-		c, ok := n.(*ast.CallExpr)
-		if !ok || !isCallTo(info, c, "(*Conn).releaseStream") {
+	// every releaseStream in exec (or in a private helper only exec's life cycle calls) that is not on the response
+	// path: the call was removed from c.calls and its timeout closed before the stream is released
+	mk := func(g2 *Graph) Classifier { return connEvents(p, g2) }
+	scope := append([]*FuncInfo{fi}, p.privateCallees(fi)...)
+	for _, fn := range scope {
+		finfo := fn.Pkg.TypesInfo
+		ast.Inspect(fn.Decl.Body, func(n ast.Node) bool {
+			c, ok := n.(*ast.CallExpr)
+			if !ok || !isCallTo(finfo, c, "(*Conn).releaseStream") {
+				return true
+			}
+			var at ast.Node = c
+			if d, isDefer := p.Parent(c).(*ast.DeferStmt); isDefer {
+				at = d
+			}
+			must := p.MustBefore(mk, fn, at, 0)
+			if must["recvResp"] {
+				return true
+			}
+			r.Check(must["deletedOrClosed"] && must["closeTimeout"], c, fn.Name+" early release (no response)",
+				"call removed from c.calls and timeout closed before the stream is released", "stream released while the call is still registered: the next request on this id is refused or gets this call's slot")
 			return true
+		})
+	}
+	// each delete(c.calls, ...) in exec and its helpers is under c.mu
+	for _, fn := range scope {
+		finfo := fn.Pkg.TypesInfo
+		flocks := locks
+		if fn != fi {
+			flocks = p.GraphOf(fn).Lockset()
 		}
-		s, ok := ef.Sol.Before(c)
-		if !ok {
+		ast.Inspect(fn.Decl.Body, func(n ast.Node) bool {
+			c, ok := n.(*ast.CallExpr)
+			if !ok || calleeName(finfo, c) != "builtin.delete" || len(c.Args) != 2 || !p.isField(finfo, c.Args[0], "Conn", "calls") {
+				return true
+			}
+			ls, ok := flocks.Before(c)
+			root := exprStr(ast.Unparen(c.Args[0]).(*ast.SelectorExpr).X)
+			r.Check(ok && ls[root+".mu"], c, fn.Name+" delete(c.calls) under c.mu", "under "+root+".mu", "c.calls modified without c.mu")
 			return true
-		}
-		if _, isDefer := p.Parent(c).(*ast.DeferStmt); isDefer {
-			s, _ = ef.Sol.Before(p.Parent(c))
-		}
-		if s.Must["recvResp"] {
-			return true
-		}
-		r.Check(s.Must["deletedOrClosed"] && s.Must["closeTimeout"], c, "(*Conn).exec early release (no response)",
-			"call removed from c.calls and timeout closed before the stream is released", "stream released while the call is still registered: the next request on this id is refused or gets this call's slot")
-		return true
-	})
-	// each delete(c.calls, ...) in exec is under c.mu
-	ast.Inspect(fi.Decl.Body, func(n ast.Node) bool {
-		c, ok := n.(*ast.CallExpr)
-		if !ok || calleeName(info, c) != "builtin.delete" || len(c.Args) != 2 || !p.isField(info, c.Args[0], "Conn", "calls") {
-			return true
-		}
-		ls, ok := locks.Before(c)
-		root := exprStr(ast.Unparen(c.Args[0]).(*ast.SelectorExpr).X)
-		r.Check(ok && ls[root+".mu"], c, "(*Conn).exec delete(c.calls) under c.mu", "under "+root+".mu", "c.calls modified without c.mu")
-		return true
-	})
+		})
+	}
+	_ = info
 }
 
 func c06r6(p *Program, r *Report) {
@@ -584,6 +596,40 @@ func c06r7(p *Program, r *Report) {
 		}
 		return true
 	})
+	if callObj == nil {
+		// the lookup may live in a private helper: the call object is the variable receiving a *callReq result
+		for _, h := range p.privateCallees(fi) {
+			usesCalls := false
+			ast.Inspect(h.Decl.Body, func(n ast.Node) bool {
+				if ix, ok := n.(*ast.IndexExpr); ok && p.isField(h.Pkg.TypesInfo, ix.X, "Conn", "calls") {
+					usesCalls = true
+				}
+				return true
+			})
+			if !usesCalls {
+				continue
+			}
+			ast.Inspect(fi.Decl.Body, func(n ast.Node) bool {
+				as, ok := n.(*ast.AssignStmt)
+				if !ok || len(as.Rhs) != 1 {
+					return true
+				}
+				if c, ok := ast.Unparen(as.Rhs[0]).(*ast.CallExpr); ok {
+					if fn := calleeOf(info, c); fn != nil && p.FuncOf(fn) == h {
+						for _, l := range as.Lhs {
+							if id, ok := l.(*ast.Ident); ok && typeNameOf(info.TypeOf(id)) == "callReq" {
+								callObj = info.Defs[id]
+								if callObj == nil {
+									callObj = info.Uses[id]
+								}
+							}
+						}
+					}
+				}
+				return true
+			})
+		}
+	}
 	if callObj == nil {
 		r.Unresolved("recv does not look a call up in c.calls")
 		return
